@@ -589,7 +589,7 @@ fn main() {
     std::env::remove_var("VERIF_WORKERS");
     let mism = u64::from(a.digest != b.digest);
     if mism != 0 {
-        report.harness_errors.push("determinism self-check failed: same (input, tape) gave different outcomes".into());
+        report.soft_errors.push("determinism self-check failed: same (input, tape) gave different outcomes".into());
     }
 
     let (proc_runs, proc_findings, proc_samples) = process_tier(&w, &tier, report.seed);
